@@ -3,7 +3,7 @@
    (what the code does) and C08/Spec.v (what a valid file is; wf_state). *)
 From Coq Require Import List NArith ZArith Bool String Ascii Permutation.
 From T4V Require Import Base.Str C08.Model C08.Spec C08.ProofsSets C08.ProofsWrite C08.ProofsPrune
-     C08.Check C08.ProofsRefute.
+     C08.ProofsTail C08.Check C08.ProofsRefute.
 Import ListNotations.
 
 (* VolumeT4.__str__: for EVERY volume (no hypothesis), each declared count equals the
@@ -54,6 +54,27 @@ Theorem C08_prune_total :
 Proof. intros E. exact (@prune_total E). Qed.
 Print Assumptions C08_prune_total.
 
+(* END TO END: from the tables construct_volume_t4 returns to the file.  If those tables
+   have closed references, contain the two helper planes, are not empty, the skip list is
+   disjoint from the volume numbers and every non-virtual volume comes from a cell whose
+   material has a card and a live cell (stage0_ok: facts about code outside this model,
+   checked on every snapshot by tie:stage0), then for EVERY option combination the tail of
+   the conversion never raises before the file is opened and either writes a file that
+   satisfies every clause of the property (possibly followed by the ValueError of
+   conflicting boundary conditions, the file then simply has no BOUNDARY_CONDITION block),
+   or every volume was pruned away and nothing but the // header is written *)
+Theorem C08_convert_tail_wf :
+  forall (E : Type) (eeqb : E -> E -> bool),
+  (forall x y, eeqb x y = eeqb y x) ->
+  (forall x y z, eeqb x y = true -> eeqb y z = true -> eeqb x z = true) ->
+  forall skip_dedup u0 u1 (w : wstate E),
+  stage0_ok eeqb u0 u1 w ->
+  exists o, convert_tail eeqb skip_dedup u0 u1 w = Ok o /\
+    (o = Died false [] EValue \/
+     exists f, wf_file f /\ (o = Complete f \/ exists e, o = Raised f e /\ f_bc f = None)).
+Proof. intros E. exact (@convert_tail_wf E). Qed.
+Print Assumptions C08_convert_tail_wf.
+
 (* remove_empty_volumes terminates within the model's fuel (it never returns None) and
    its result has closed references and no volume with a surface on both sides *)
 Theorem C08_remove_empty_volumes_ok : forall (E : Type) (surfs : stable E) vols u0 u1,
@@ -80,6 +101,11 @@ Print Assumptions C08_wf_fileb_ok.
 Theorem C08_wf_stateb_sound : forall (E : Type) (w : wstate E), wf_stateb w = true -> wf_state w.
 Proof. intros E. exact wf_stateb_sound. Qed.
 Print Assumptions C08_wf_stateb_sound.
+
+Theorem C08_stage0_okb_sound : forall (E : Type) (eeqb : E -> E -> bool) u0 u1 (w : wstate E),
+  stage0_okb eeqb u0 u1 w = true -> stage0_ok eeqb u0 u1 w.
+Proof. intros E. exact (@stage0_okb_sound E). Qed.
+Print Assumptions C08_stage0_okb_sound.
 
 (* boundary conditions (repaired writeT4BoundCond): for EVERY complete run of the writers —
    no hypothesis on the tables, the renumbering or the flags — each listed surface is
@@ -120,6 +146,10 @@ Example C08_leading_zero_example :
     f_geomcomp f = Some g /\ map gc_name g = ["m1_-1.0"%string] /\
     f_comps f = Some c /\ map cb_name (snd c) = ["m1_-1.0"; "m0"]%string.
 Proof. exact leading_zero_example. Qed.
+
+(* the hypotheses of C08_convert_tail_wf are satisfiable: the tables of a real run *)
+Example C08_stage0_example : stage0_ok Nat.eqb 6 7 (w7 surfs7 vols7).
+Proof. apply stage0_okb_sound. vm_compute. reflexivity. Qed.
 
 Example C08_example :
   refs_ok surfs_ex vols_ex /\ helpers_ok Nat.eqb surfs_ex 7 8 /\
